@@ -7,7 +7,7 @@ CFG = {
     "engine": "sched",
     "engines": ["sched", "enum"],
     "technique": "stateless model checking of the real goroutines under a controlled scheduler (all interleavings up to a preemption bound, ThreadSanitizer attributed per schedule) + exhaustive (count x pool size) configuration enumeration",
-    "level_text": "Layer (i): each of the nine ...ParallelWithPoolSize entry points is run for every element count 0..40 (thorough 0..130) x every pool size 1..17 (1..33) against a visit table and the sequential twin. Layer (i) also runs the primitive scans on meshes with non-identity index buffers (the primitive handed out for index i against the sequential scan's) and sweeps a box across the block boundaries (126 centres: x 2.5..8.5 step 0.3 x 3 y x 2 z at block edge 6) through AddField / AddFieldParallel / AddFieldParallel2 + MarchParallel with 2-4 (thorough 1-8) workers against AddField + March. Layer (ii): the real code, instrumented at build time (sync -> wrappers around the real primitives, go statements, channel operations, runtime.NumCPU), runs under a hand-rolled controlled scheduler that enumerates every interleaving up to preemption bound 2 (3 in thorough for the small cases) of 2-3 workers for counts 0..4 (0..6) with a Yield inside the user callback, and of AddFieldParallel / AddFieldParallel2 / MarchParallel on fields spanning 1, 2 and 4 storage blocks and two attributes with 2 and 3 workers (block edge scaled to 6); the scheduler's hand-offs are hidden from ThreadSanitizer, so the race detector reports exactly the program's own missing happens-before edges on each explored schedule. Every execution is an execution of the implementation.",
+    "level_text": "Layer (i): each of the nine ...ParallelWithPoolSize entry points is run for every element count 0..40 (thorough 0..130) x every pool size 1..17 (1..33) against a visit table and the sequential twin. Layer (i) also runs the primitive scans on meshes with non-identity index buffers (the primitive handed out for index i against the sequential scan's) and sweeps a box across the block boundaries (126 centres: x 2.5..8.5 step 0.3 x 3 y x 2 z at block edge 6) through AddField / AddFieldParallel / AddFieldParallel2 + MarchParallel with 2-4 (thorough 1-8) workers against AddField + March. Layer (ii): the real code, instrumented at build time (sync -> wrappers around the real primitives, go statements, channel operations, runtime.NumCPU), runs under a hand-rolled controlled scheduler that enumerates every interleaving up to preemption bound 2 (3 in thorough for the small cases) of 2-3 workers for counts 0..4 (0..6) with a Yield inside the user callback, and of AddFieldParallel / AddFieldParallel2 / MarchParallel on fields spanning 1, 2 and 4 storage blocks and two attributes with 2 and 3 workers (block edge scaled to 6); the scheduler's hand-offs are hidden from ThreadSanitizer, so the race detector reports exactly the program's own missing happens-before edges on each explored schedule. Every execution is an execution of the implementation." + " " + "Layer (i) also: re-indexed scans (non-identity index buffers; every primitive handed out is retained and checked again after the scan), box fields swept across the block boundaries (126 centres x workers x three pipelines, whole and clipped by a smaller domain) and boxes spanning 3..27 storage blocks with the processors limited to the worker count, each against AddField + March.",
     "level_note": "Trusted: rt/vsched + rt/vsync (self-tested in every run: a racy toy must be reported, a locked toy silent, a lost update found at bound 1), tools/vinstr rewriting, ThreadSanitizer. Not covered: more than 3 workers, more than 2-3 preemptions, memory-model effects TSan does not report, marching schedules at the real block edge 100 (explored on the scaled constant).",
     "jobs": [
         {"variant": "sched-c10", "id": "C10i", "env": _RACE, "no_ulimit": True, "share": 0.15, "gomaxprocs": 4},
